@@ -274,6 +274,32 @@ pub fn run(ctx: &mut Ctx) {
             mon.observe(ctx, &Item::N(wrap_rotating(t.clone(), i * 3 + 2)), "universe1-tasks");
         }
     }
+    // names that stress the escaping of the renderer: every concatenation of up to three pieces out of
+    // backslash, quote, NUL, other control characters, braces and the letters escapes are made of
+    // (no whitespace: see the assumptions).  Every worker renders all of them, so two names whose
+    // renderings collide meet in one monitor.
+    {
+        let pieces = ["\\", "\"", "\0", "0", "u{0}", "{", "}", "'", "\u{7f}", "\u{1b}", "n", "x", "u", "\u{e000}", "#", "$"];
+        let mut hostile: Vec<String> = vec![];
+        for a in pieces {
+            hostile.push(a.to_string());
+            for b in pieces {
+                hostile.push(format!("{}{}", a, b));
+                for c in pieces {
+                    hostile.push(format!("{}{}{}", a, b, c));
+                }
+            }
+        }
+        hostile.sort();
+        hostile.dedup();
+        for (i, n) in hostile.iter().enumerate() {
+            let k = NAMED_ATOM_KINDS[i % NAMED_ATOM_KINDS.len()];
+            mon.observe(ctx, &Item::N(ND::Term(TD::atom(Kind::Word, n))), "escape-hostile-names");
+            if i % 3 == 0 {
+                mon.observe(ctx, &Item::N(ND::Term(TD::bin(Kind::Inh, TD::atom(k, n), TD::word("A")))), "escape-hostile-names");
+            }
+        }
+    }
     // depth 2: constructors over depth-1 compounds (sampled per shard)
     let mut rng = ctx.rng(0xC16);
     let names = common_safe_names();
@@ -290,7 +316,9 @@ pub fn run(ctx: &mut Ctx) {
                 let d__ = 2 + rng.below(3);
                 let t = g.term_x(&mut rng, d__);
                 mon.observe(ctx, &Item::N(ND::Term(t.clone())), "near-miss");
-                if let Some(m) = super::c06::near_miss(&t, &mut rng) {
+                // (a near miss that is only expressible through the constructors - an image index behind one of the
+                // image's own bare placeholders - has, by construction, the spelling of its well-formed twin)
+                if let Some(m) = super::c06::near_miss(&t, &mut rng).filter(td_wellformed) {
                     mon.observe(ctx, &Item::N(ND::Term(m)), "near-miss");
                 }
             }
